@@ -24,6 +24,24 @@ def struniv(alpha, maxlen):
     return [''.join(p) for l in range(maxlen + 1) for p in itertools.product(alpha, repeat=l)]
 
 
+def ball(base, radius, alpha):
+    """Every string within `radius` single-character edits of `base` (sorted by length, then text)."""
+    cur, seen = {base}, {base}
+    for _ in range(radius):
+        nxt = set()
+        for w in cur:
+            for i in range(len(w) + 1):
+                for c in alpha:
+                    nxt.add(w[:i] + c + w[i:])
+                if i < len(w):
+                    nxt.add(w[:i] + w[i + 1:])
+                    for c in alpha:
+                        nxt.add(w[:i] + c + w[i + 1:])
+        cur = nxt - seen
+        seen |= nxt
+    return sorted(seen, key=lambda w: (len(w), w))
+
+
 def respell(s, pres):
     """Presentation: swap the letters for non-ASCII characters."""
     if pres.spelling == 'ascii':
@@ -106,6 +124,11 @@ def w_edit(job):
     if g['gen'] == 'struniv':
         lv = struniv(g['alpha'], g['lmax'])
         rv = struniv(g['alpha'], g['rmax'])
+    elif g['gen'] == 'ball':
+        lv = ball(g['base'], g['lr'], g['alpha'])
+        rv = ball(g['base'], g['rr'], g['alpha'])
+        if g.get('lrev'):
+            lv = lv[::-1]
     else:
         lv, rv = list(g['L']), list(g['R'])
     lv = [respell(s, pres) for s in lv]
@@ -241,6 +264,21 @@ def layers(tier):
                 'return_set x thresholds {0,1,2,3,0.5,1.9} x {<=,<,=} x n_jobs 1..3, plus the default '
                 'tokenizer; non-trivial = qualifying pair that shares a q-gram'
                 % (ml, '' if quick else ', STR({a,b,c},4)'), min_nontrivial=1000, chunksize=2)]
+    # long strings: complete edit balls around two 12-character words (prefix lengths q*t+1 that really truncate)
+    jobs = []
+    for base in ('abaabbabbaab', 'aaaaaaaaaaaa', 'abababababab'):
+        for q in (2, 3):
+            for padding in (True, False):
+                for t in ((2, 3, 4) if quick else (1, 2, 3, 4, 5)):
+                    for op, nj, lrev in (('<=', 1, False), ('<', 2, True)) + (() if quick else (('=', 3, False),)):
+                        jobs.append({'gen': {'gen': 'ball', 'base': base, 'alpha': 'ab', 'lr': 1 if quick else 2,
+                                             'rr': 2, 'lrev': lrev},
+                                     'q': q, 'padding': padding, 'rs': False, 't': t, 'op': op, 'n_jobs': nj,
+                                     'pres': pres, 'order': 'rev' if nj == 3 else None})
+    Ls.append(Layer('edit-balls', 'checks.c03:w_edit', jobs,
+                    'tables = all strings within %d (left) / 2 (right) single-character edits of three 12-character '
+                    'words over {a,b} (lengths 10..14) x q in {2,3} x padding x thresholds %s x operators x n_jobs'
+                    % (1 if quick else 2, '2..4' if quick else '1..5'), min_nontrivial=1000, chunksize=1))
     # packed tiny string tables: q-gram frequency contexts
     S, T = tiny_str_tables("ab", 3, 2)
     nsc = len(T) * len(T)
@@ -264,7 +302,7 @@ def layers(tier):
 
 ASSUME = ['textbook DP Levenshtein as the reference distance',
           'py_stringmatching QgramTokenizer (fresh object, bag mode) defines "shares a q-gram"',
-          'strings longer than 7 characters / alphabets larger than 3 letters / q > 3 not explored']
+          'strings longer than 7 characters only inside the radius-2 edit balls of three 12-character words; alphabets larger than 3 letters / q > 3 not explored']
 
 if __name__ == '__main__':
     tier = sys.argv[1] if len(sys.argv) > 1 else 'quick'
